@@ -241,6 +241,9 @@ func runC17(c *kit.Ctx) {
 	exceptionTableOracle(c)
 	failedDialDeclaresTheConnectionDead(c)
 	probeClassifiesOutcome(c)
+	regionExceptionUnchanged(c)
+	classificationGoesByClassName(c)
+	oneEstablisherPerOutage(c)
 	noWaitlessRecursion(c)
 	zkSessionIsClosed(c)
 
